@@ -89,6 +89,7 @@ pub fn forms_of(kind: &str, seed: u64) -> Result<Vec<String>, String> {
     let mut rng = crate::rng::Rng::new(seed);
     Ok(match kind {
         "alloc" => crate::gen_alloc::session(&mut rng).0,
+        "biglive" => crate::gen_alloc::big_session(&mut rng).0,
         "cont" => crate::gen_cont::session(&mut rng).0,
         "sym" => crate::gen_sym::session(&mut rng).0,
         "lang" => {
